@@ -11,9 +11,11 @@ namespace BluetoeModel.Bootloader
 structure Ghost where
   lay  : Option Lay
   owed : Nat
+  s0   : Nat            -- the address of the last accepted Start Flash
+  recv : List UInt8     -- every data byte taken since then
 deriving Repr, DecidableEq
 
-def Ghost.init : Ghost := { lay := none, owed := 0 }
+def Ghost.init : Ghost := { lay := none, owed := 0, s0 := 0, recv := [] }
 
 /-- The protocol (bootloader.md): an accepted Start Flash (re)starts flash mode at the given address;
     an accepted Flush flashes what is waiting; Start / Reset (accepted) and unknown opcodes change
@@ -26,12 +28,12 @@ def specCtrl (cfg : Cfg) (g : Ghost) (v : List UInt8) (code : Nat) : Ghost × Li
     if opb.toNat = 3 then
       (if code = 0 then
         match readAddress v 1 with
-        | some s => { g with lay := some { cur := s, pend := [], crc := crcOfAddress s, busy := 0 } }
+        | some s => { g with lay := some { cur := s, pend := [], crc := crcOfAddress s, busy := 0 }, s0 := s, recv := [] }
         | none => { g with lay := none }
        else { g with lay := none }, [])
     else if opb.toNat = 5 then
       match g.lay with
-      | some L => if code = 0 then ({ lay := some (L.flush cfg).1, owed := g.owed + 1 }, (L.flush cfg).2)
+      | some L => if code = 0 then ({ g with lay := some (L.flush cfg).1, owed := g.owed + 1 }, (L.flush cfg).2)
                   else ({ g with lay := none }, [])
       | none => ({ g with lay := none }, [])
     else if opb.toNat = 6 ∨ opb.toNat = 7 then (if code = 0 then g else { g with lay := none }, [])
@@ -189,7 +191,7 @@ theorem ctrlStartFlash_sim {cfg : Cfg} (wf : cfg.WF) (c : Ctl) (q2 : Bool) (g : 
   have hs : ∀ code, specCtrl cfg g (opb :: rest) code =
       (if code = 0 then
         match readAddress (opb :: rest) 1 with
-        | some s => { g with lay := some { cur := s, pend := [], crc := crcOfAddress s, busy := 0 } }
+        | some s => { g with lay := some { cur := s, pend := [], crc := crcOfAddress s, busy := 0 }, s0 := s, recv := [] }
         | none => { g with lay := none }
        else { g with lay := none }, []) := by
     intro code; unfold specCtrl; simp only [if_pos ho]
@@ -256,7 +258,7 @@ theorem ctrlFlush_sim {cfg : Cfg} (c : Ctl) (q2 : Bool) (g : Ghost) (opb : UInt8
       · next hok =>
         have hok' : (Buf.flush cfg.page (c.buf c.next)).2.2 = true := by simpa using hok
         obtain ⟨f1, f2⟩ := flush_sim hsb hok'
-        have hs : specCtrl cfg g (opb :: rest) 0 = ({ lay := some (L.flush cfg).1, owed := g.owed + 1 }, (L.flush cfg).2) := by
+        have hs : specCtrl cfg g (opb :: rest) 0 = ({ g with lay := some (L.flush cfg).1, owed := g.owed + 1 }, (L.flush cfg).2) := by
           unfold specCtrl
           simp only [if_neg (show ¬ opb.toNat = 3 by omega), if_pos ho, hlay]
           simp
